@@ -1,0 +1,10 @@
+//go:build verif
+
+package shovel
+
+// VerifCfgWait returns when no Manager.Run of tm is in progress (Run holds the
+// lock from before it loads the tasks until every task has returned).
+func (tm *Manager) VerifCfgWait() {
+	tm.running.Lock()
+	tm.running.Unlock()
+}
